@@ -69,8 +69,20 @@ def quadSystem {n : Nat} (g : Vec n → Vec n) (Sqq Sqp Spp : Mat n) : GLSystem 
   ⟨g, fun q p => force (Sqq.mulVec q + Sqp.mulVec p),
       fun q p => force (Sqp.transpose.mulVec q + Spp.mulVec p)⟩
 
+/-- Strict (array) representation of a vector for the solver iteration.  `solveDirect` is
+polymorphic in the vector type; running it on arrays (with the conversions `toArr`/`ofArr`, inverse
+to each other on length-`n` arrays) avoids re-evaluating towers of closures: a lambda returning a
+`Fin n → ℚ` is eta-expanded by the compiler and would recompute its body on every component access. -/
+def toArr {n : Nat} (v : Vec n) : Array ℚ := Array.ofFn v
+def ofArr {n : Nat} (a : Array ℚ) : Vec n := fun i => a.getD i.1 0
+instance : Sub (Array ℚ) := ⟨fun a b => Array.zipWith (· - ·) a b⟩
+def maxNormArr (a : Array ℚ) : ℚ := (a.toList.map fun x => if x < 0 then -x else x).foldl max 0
+
+def solveQ {n : Nat} (f : Vec n → Vec n) (x0 : Vec n) : Res (Vec n) :=
+  (solveDirect maxNormArr ctolQ dtolQ 100 (fun a => toArr (f (ofArr a))) (toArr x0)).map ofArr
+
 def glStepQ {n : Nat} (S : GLSystem (Vec n)) (t : ℚ) (x : Vec n × Vec n) : Res (Vec n × Vec n) :=
-  (glStep S (solveDirect maxNorm ctolQ dtolQ 100) (farOf maxNorm rtolQ) t x).map force2
+  (glStep S solveQ (farOf maxNorm rtolQ) t x).map force2
 
 def imStepQ {n : Nat} (S : GLSystem (Vec n)) (t : ℚ) (x : Vec n × Vec n) : Res (Vec n × Vec n) :=
   let f : Vec n × Vec n → Vec n × Vec n := fun z =>
